@@ -177,6 +177,19 @@ ArithBad(e) ==
                  \/ (e.l.sg = 0 /\ e.r.sg # 0 /\ e.res.sg # 0)
                  \/ (e.op = "mul" /\ e.r.sg = 0 /\ e.res.sg # 0))
           THEN {1} ELSE {}}
+  \* a sum cannot be judged on the log lattice, but its range can: |l + r| lies between max(|l|, |r|) and twice that when
+  \* the signs agree, and never above twice the larger one (a sum taken without converting, or converted the wrong way
+  \* round, leaves that range as soon as the two units differ by more than a factor of two)
+  \cup {"C06:" \o e.op \o ":sum-outside-the-range-of-its-operands" : x \in
+          IF e.op \in {"add", "sub"} /\ e.rt = "q" /\ DPad(e.l.u.d) = DPad(e.r.u.d)
+             /\ JudgedQ(e.l) /\ JudgedQ(e.r) /\ JudgedQ(e.res) /\ NZ(e.l) /\ NZ(e.r) /\ NZ(e.res)
+             /\ LET rs == IF e.op = "add" THEN e.r.sg ELSE 0 - e.r.sg
+                    pl == PV(e.l, size)   pr == PV(e.r, size)   ps == PV(e.res, size)
+                    mx == IF pl > pr THEN pl ELSE pr
+                    tol == TolQ(e.l) + TolQ(e.r) + TolQ(e.res) + 4
+                IN  \/ ps > mx + 693148 + tol
+                    \/ (e.l.sg = rs /\ (ps < mx - tol \/ e.res.sg # e.l.sg))
+          THEN {1} ELSE {}}
   \cup {"C06:pow:physical-value" : x \in
           IF e.op = "pow" /\ e.rt # "foreign" /\ JudgedQ(e.l) /\ JudgedQ(e.res) /\ NZ(e.l) /\ NZ(e.res) /\ Abs(e.n) <= 6
              /\ Abs(PV(e.res, size) - e.n * PV(e.l, size)) > (Abs(e.n) + 1) * TolQ(e.l) + TolQ(e.res)
